@@ -24,6 +24,12 @@ CLAIMS = {
          "state wrappers, that a veto re-establishes every registry field a request may write (transitive may-write effects of applyRequest vs the veto "
          "arm), backup/restore symmetry, and the substitution bound.",
          "token-protocol path rule + transitive may-write effects + order rules over clang AST facts (static analysis)"),
+ "C06": ("Decides that a task's kind, destination and payload reach the request updatePlan issues (task-field flow), the execution guards (loop stops at the "
+         "first inactive origin, request only under the origin's success mark, Origin scope naming the head, removal and mark clearing afterwards), the "
+         "success/failure routing decision trees of updatePlan and C_/O_::deepUpdatePlans, that head and sub-state statuses are or-ed into the right "
+         "accumulators everywhere, mark clearing on exit / end of step, default propagation, TaskStatus ordering, and payload~void sibling agreement. "
+         "Does not decide the step-level accumulation of statuses across nested regions as values.",
+         "field-flow + decision-tree path rules + sibling skeleton agreement over clang AST facts (static analysis)"),
  "C09": ("Decides what is recorded and when (approved arm only; published on every exit of a step; cleared on deactivation/reset/load/replay), that the "
          "change predicate compares the whole pending configuration, who may write the pin table and that it is read under a bound, and that replay reaches "
          "no guard, records exactly the replayed list and commits through the ordinary routine. Does not decide that replay lands in the same configuration "
